@@ -110,7 +110,9 @@ def run_case(case):
     case = dict(case, arrivals=[[a[0], canon[a[1]]] + list(a[2:]) if a[0] == "f" else a for a in case["arrivals"]])
     per_sender = {}
     for m in case["msgs"]:
-        per_sender.setdefault((m["from"], m["id"]), set()).add((m["type"], m["len"], m["seed"]))
+        # (a multicast reuses the frame id of the preceding direct message: same origin and id with ANOTHER destination is
+        # something the library itself produces; same origin, id AND destination for two messages is outside the protocol)
+        per_sender.setdefault((m["from"], m["id"], m["to"]), set()).add((m["type"], m["len"], m["seed"]))
     if any(len(v) > 1 for v in per_sender.values()):
         res.inconclusive = "one sender uses one frame id for two different messages (outside the protocol)"
         return res
@@ -286,6 +288,26 @@ def _enum(full):
                             if deq_each:
                                 a2.append(["deq"])
                         yield {"mode": "reuse" if (n0 + n2) % 2 else "fresh", "msgs": base, "plains": [], "arrivals": a2}
+        # C: one origin, one frame id, a direct and a multicast message (the library reuses the id for a multicast)
+        duo = [{"from": 0o1, "to": 0, "id": 9, "type": 65, "len": 30, "seed": 4}, {"from": 0o1, "to": 0o100, "id": 9, "type": 1, "len": 40, "seed": 5}]
+        for w0 in itertools.product((0, 1), repeat=2):
+            for w1 in itertools.product((0, 1), repeat=2):
+                s0 = [["f", 0, j, "b"] for j, n in enumerate(w0) for _ in range(n)]
+                s1 = [["f", 1, j, "b"] for j, n in enumerate(w1) for _ in range(n)]
+                for order in (s0 + s1, s1 + s0):
+                    for mode in modes:
+                        yield {"mode": mode, "msgs": duo, "plains": [], "arrivals": order}
+        # D: the message completes while the queue refuses it (full, or the same message still queued), the application
+        # dequeues, then fragments are repeated
+        six = [{"from": 0o3, "to": 0, "id": 100 + i, "type": 0, "len": 2, "seed": 50 + i} for i in range(6)]
+        for typ in (1, 2, 3, 65):
+            for nfrag_len in (30, 60):
+                one = [{"from": 0o1, "to": 0, "id": 7, "type": typ, "len": nfrag_len, "seed": 9}]
+                k = (nfrag_len + 23) // 24
+                stream = [["f", 0, j, "b"] for j in range(k)]
+                for tail in ([["f", 0, k - 1, "b"]], [["f", 0, k - 2, "b"], ["f", 0, k - 1, "b"]], stream):
+                    yield {"mode": "fresh", "msgs": one, "plains": six, "arrivals": [["p", i] for i in range(6)] + stream + [["deq"]] * 7 + tail}
+                    yield {"mode": "reuse", "msgs": one, "plains": [], "arrivals": stream + stream + [["deq"]] * 2 + tail}
     return gen
 
 
@@ -304,19 +326,22 @@ def _strategy(modes):
                 nfrag = draw(st.integers(2, 7))
                 ln = draw(st.integers((nfrag - 1) * 24 + 1, min(nfrag * 24, 144 if nfrag < 7 else 168)))
                 fid = shared_id if draw(st.booleans()) else draw(st.integers(0, 0xFFFF))
-                while fid in used:  # a sender never reuses a frame id for another message
+                to = draw(st.sampled_from([0, 0, 0o100]))
+                while (fid, to) in used:  # a sender never reuses a frame id for another message to the same destination
                     fid = (fid + 1) & 0xFFFF
-                used.add(fid)
-                msgs.append({"from": s, "to": 0, "id": fid,
+                used.add((fid, to))
+                msgs.append({"from": s, "to": to, "id": fid,
                              "type": draw(st.sampled_from([0, 1, 2, 3, 65, 84, 127, 130, 131])), "len": ln,
                              "seed": draw(st.integers(0, 10**6))})
         streams = []
         for mi, m in enumerate(msgs):
             k = (m["len"] + 23) // 24
             s = []
-            for j in range(k):
-                n = draw(st.sampled_from([1, 1, 1, 1, 0, 2]))
-                s += [["f", mi, j, draw(st.sampled_from(["b", "ba"]))]] * n
+            whole = draw(st.sampled_from([1, 1, 1, 2, 3]))  # the sender may transmit the complete message more than once
+            for _rep in range(whole):
+                for j in range(k):
+                    n = draw(st.sampled_from([1, 1, 1, 1, 0, 2, 3] if j == k - 1 else [1, 1, 1, 1, 0, 2]))
+                    s += [["f", mi, j, draw(st.sampled_from(["b", "ba"]))]] * n
             # bounded local reordering
             i = 0
             while i + 1 < len(s):
@@ -326,15 +351,21 @@ def _strategy(modes):
                     s[i], s[jx] = s[jx], s[i]
                 i += 1
             streams.append(s)
-        nplain = draw(st.integers(0, 2))
-        plains = [{"from": draw(st.sampled_from(senders)), "to": 0, "id": shared_id if draw(st.booleans()) else draw(st.integers(0, 0xFFFF)),
+        nplain = draw(st.sampled_from([0, 1, 2, 2, 6, 7]))  # 6+ ordinary frames can fill the queue (max_queue_size 6)
+        plains = [{"from": draw(st.sampled_from(senders)), "to": 0, "id": (shared_id + 1000 + _i) & 0xFFFF if draw(st.booleans()) else draw(st.integers(0, 0xFFFF)),
                    "type": draw(st.sampled_from([0, 1, 65, 84])), "len": draw(st.integers(0, 24)), "seed": draw(st.integers(0, 999))}
-                  for _ in range(nplain)]
+                  for _i in range(nplain)]
         if nplain:
-            streams.append([["p", i] for i in range(nplain) for _ in range(draw(st.integers(1, 2)))])
+            if nplain >= 6 and draw(st.booleans()):
+                streams.insert(0, [["p", i] for i in range(nplain)])  # queued before anything else arrives
+            else:
+                streams.append([["p", i] for i in range(nplain) for _ in range(draw(st.integers(1, 2)))])
         streams.append([["deq"]] * draw(st.integers(0, 4)))
         arr = []
         idx = [0] * len(streams)
+        if nplain >= 6 and streams and streams[0] and streams[0][0][0] == "p":
+            arr = list(streams[0])
+            idx[0] = len(streams[0])
         while any(idx[i] < len(streams[i]) for i in range(len(streams))):
             live = [i for i in range(len(streams)) if idx[i] < len(streams[i])]
             if draw(st.integers(0, 2)) and arr and arr[-1][0] == "f":
